@@ -24,7 +24,8 @@ REQUIRED = ["trees_built", "trees_with_unpruned_leaf", "trees_fully_pruned", "pr
             "parse_checked", "set:raire", "set:raire_minus_one", "set:random", "set:redundant", "set:inconsistent", "set:empty", "parse_multi_contest_logs",
             "rendered_tags_checked", "rendered_tags_checked:node_pruned_by_both_kinds",
             "parse_eliminated_set_names_an_id_outside_the_candidate_list", "eliminated_sets_given_as_frozensets",
-            "sets_with_a_vacuous_assertion_whose_candidate_is_in_its_own_eliminated_set"]
+            "sets_with_a_vacuous_assertion_whose_candidate_is_in_its_own_eliminated_set",
+            "parse_logs_with_missing_or_short_assertion_json"]
 ASSUMPTIONS = ["tag comparison is by assertion content (the module identifies an assertion by list.index, which maps exact "
                "duplicates to one index)"]
 N_CASES = {"quick": 128000, "thorough": 1024000}
@@ -289,6 +290,22 @@ def run_parse(case, rec, V):
             want_el.append((w, set(E), proved))
     contests = {"7": {"choice_function": "IRV", "n_winners": 1, "winner": [winner], "candidates": list(cands),
                       "assertions": adict, "assertion_json": ajson}}
+    if rng.random() < 0.25 and len(ajson) >= 2:
+        # logs whose "assertion_json" section is missing (the documented fall-back for audits that write none) or shorter
+        # than "assertions": every assertion without a detail entry is read from its winner/loser fields as
+        # "loser is not eliminated before winner"
+        keep = rng.choice((0, 0, 1, len(ajson) - 1))
+        if keep == 0 and rng.random() < 0.5:
+            del contests["7"]["assertion_json"]
+        else:
+            contests["7"]["assertion_json"] = ajson[:keep]
+        want_wo, want_el = [], []
+        for idx, (js, a) in enumerate(zip(ajson, adict.values())):
+            if idx < keep and js["assertion_type"] == "IRV_ELIMINATION":
+                want_el.append((js["winner"], set(js["already_eliminated"]), a["proved"]))
+            else:
+                want_wo.append((a["loser"], a["winner"], a["proved"]))
+        rec.count("parse_logs_with_missing_or_short_assertion_json")
     contest_id = None
     extra = rng.choice((0, 0, 1, 2))
     for e in range(extra):
